@@ -27,6 +27,75 @@ def reads(f):
     return out
 
 
+ENUM_ORDER = {"DialectTypes": ["Disable", "ParseOnly", "Enable"]}
+
+
+def enum_flag(ctx, F, f, st, field, key):
+    """`match dialect.flag { V1 => .., V2 => .. }`: enabling more must not add a way to fail. For every variant the
+    blocks reachable only under that variant are its region; a region that always fails rejects everything, so it is
+    never less permissive than another; otherwise the fallible calls of a more enabled variant's region must also be
+    present in every less enabled, not-always-failing variant's region."""
+    from kern import switch_info, enum_variant_names, locals_in
+    sw = None
+    for b in f.terms:
+        info = switch_info(f, b)
+        if not info or info["kind"] != "enum":
+            continue
+        pl = locals_in(info["place"] or "")
+        if pl and (pl[0] == st.lhs_local or FIELD.search(info["place"])):
+            sw = info
+    if sw is None:
+        return False
+    names = enum_variant_names(F, sw["ty"])
+    tyname = re.sub(r"<.*", "", sw["ty"]).split("::")[-1]
+    order = ENUM_ORDER.get(tyname)
+    if not order:
+        ctx.bad("C05.R2", key, "dialect flag of enum type %s is matched on, but no enablement order is known for it"
+                % tyname, fn=f)
+        return True
+    tgt = {}
+    for v, t in sw["targets"].items():
+        tgt[names.get(v)] = t
+    for nm in names.values():
+        tgt.setdefault(nm, sw["otherwise"])
+    reach = {v: f.reach([t]) for v, t in tgt.items()}
+    region = {v: reach[v] - set().union(*[reach[w] for w in reach if w != v and tgt[w] != tgt[v]]) for v in reach}
+
+    def fallible(blocks):
+        out = set()
+        for c in f.calls:
+            if c.bb in blocks and c.bb not in f.cleanup and not c.indirect:
+                if f.locals.get(c.dest_local, "").startswith("std::result::Result<") and not re.search(
+                        r"Try>::branch$|map_err$|FromResidual", c.name):
+                    out.add(re.sub(r"::<[^>]*>", "", c.name).split("::")[-1])
+        return out
+
+    def always_fails(v):
+        errs = [c.bb for c in f.calls if ERRC.search(c.name) and c.bb in region[v]]
+        return bool(errs) and not (set(f.returns()) & f.reach([tgt[v]], cut_blocks=set(errs)))
+    good = True
+    detail = ""
+    for i, v2 in enumerate(order):
+        if v2 not in region:
+            continue
+        for v1 in order[:i]:
+            if v1 not in region or always_fails(v1):
+                continue
+            extra = fallible(region[v2]) - fallible(region[v1])
+            if extra and tgt[v1] != tgt[v2]:
+                good = False
+                detail = "`%s` can fail in %s under %s but not under the less permissive %s" % (
+                    field, sorted(extra), v2, v1)
+    ctx.check(good, "C05.R2", key,
+              "no variant of the flag adds a way to fail compared with a less enabled variant",
+              "the match on Dialect::%s makes a more enabled setting stricter: %s (a file accepted with fewer features "
+              "enabled is rejected with more)" % (field, detail), fn=f)
+    return True
+
+
+ERRC = re.compile(r"syntax::state::ParserState::<'a>::error$|syntax::grammar_util::err$")
+
+
 def run(ctx):
     F = ctx.facts("core")
     readers = []
@@ -68,6 +137,12 @@ def run(ctx):
                     dis |= bool_call_edges(F, f, c, "true")
                     ena |= bool_call_edges(F, f, c, "false")
             key = "flag:%s:%s" % (short_fn(f.qpath), field)
+            if (not dis or not ena) and st is not None:
+                # an enum-valued flag tested with `match`: per-variant regions, ordered from least to most enabled
+                done = enum_flag(ctx, F, f, st, field, key)
+                if done:
+                    n_flags += 1
+                    continue
             if not dis or not ena:
                 ctx.bad("C05.R2", key, "cannot find the branch on Dialect::%s (anchor-missing)" % field, fn=f)
                 continue
